@@ -211,8 +211,83 @@ pub fn run(ctx: &Ctx) -> CheckResult {
         out
     });
     res.absorb(merge_jobs(outs));
+    // larger periods: spike-laden prefixes of several lengths x default suffixes of length w..w+2
+    if !res.out.failed() {
+        let periods: Vec<usize> = if th { vec![5, 6, 7, 8, 9, 13, 14, 16, 20, 31, 32, 33, 64, 100, 255, 256, 257] } else { vec![5, 8, 9, 14, 16, 20, 32, 33, 64] };
+        let mut big = vec![];
+        for &n in &periods {
+            for k in [Kind::Sma, Kind::Wma, Kind::Sd, Kind::Mad, Kind::Min, Kind::Max, Kind::FastStoch, Kind::Cci, Kind::Roc, Kind::Er, Kind::Mfi] {
+                big.push(Cfg::p1(k, n));
+            }
+            big.push(Cfg::pm(Kind::Bb, n, 2.0));
+        }
+        big.sort_by_key(|c| std::cmp::Reverse(c.p[0]));
+        let outs = par_run(ctx, &big, |_, cfg| {
+            let mut out = JobOut::default();
+            let w = cfg.kind.window(cfg).unwrap();
+            let mfi = crate::alpha::b_mfi();
+            let val = |j: usize, pat: usize| -> f64 {
+                match pat {
+                    0 => 1.0 + (j % 7) as f64,
+                    1 => 20.0 - (j % 5) as f64 * 1.5,
+                    _ => {
+                        if j % 4 < 2 {
+                            3.0
+                        } else {
+                            5.0 + (j % 3) as f64
+                        }
+                    }
+                }
+            };
+            let mk = |x: f64, j: usize| -> Op {
+                if cfg.kind == Kind::Mfi {
+                    // scaled B_mfi bars: equal typical prices occur between different bars
+                    let b = mfi[j % mfi.len()];
+                    let c = if x > 100.0 { x } else { 1.0 + (j / mfi.len() % 2) as f64 };
+                    Op::B(Bar { o: b.o * c, h: b.h * c, l: b.l * c, c: b.c * c, v: b.v })
+                } else {
+                    to_op(cfg.kind, x, j)
+                }
+            };
+            for pat in 0..3usize {
+                for extra in 0..=2usize {
+                    let slen = w + extra;
+                    let suffix: Vec<Op> = (0..slen).map(|j| mk(val(j, pat), j)).collect();
+                    let b = match last_of(cfg, &suffix) {
+                        Some(b) => b,
+                        None => {
+                            out.fail(Violation::new(PROP, cfg, &suffix, "panic").obs("panic".into()).exp("outputs".into()));
+                            return out;
+                        }
+                    };
+                    for plen in [1usize, 2, w - 1, w, w + 1, 2 * w, 2 * w + 3] {
+                        for spike in [1e6, 2e3] {
+                            let mut full: Vec<Op> = (0..plen).map(|j| mk(if j % 3 == 0 { spike * (1.0 + (j % 2) as f64) } else { val(j + 1, (pat + 1) % 3) }, j + 2)).collect();
+                            full.extend_from_slice(&suffix);
+                            out.stats.states += 1;
+                            out.stats.traces += 1;
+                            out.stats.transitions += full.len() as u64;
+                            let a = match last_of(cfg, &full) {
+                                Some(a) => a,
+                                None => {
+                                    out.fail(Violation::new(PROP, cfg, &full, "panic").obs("panic".into()).exp("outputs".into()));
+                                    return out;
+                                }
+                            };
+                            if !compare(cfg, &full, &suffix, &a, &b, &mut out) {
+                                return out;
+                            }
+                        }
+                    }
+                }
+            }
+            out
+        });
+        res.extra.insert("large_period_configurations".into(), json!(big.len()));
+        res.absorb(merge_jobs(outs));
+    }
     res.extra.insert("configurations".into(), json!(cfgs.len()));
     res.rule = "case = (configuration, prefix, suffix): the real output after prefix+suffix is compared with a fresh real instance fed only the suffix (length n or n+1, and up to 2 more): == for MIN/MAX/FAST_STOCH, tau(t)*M with t and M of the whole history for the accumulating ones (SD and Bollinger half-widths as variances, ratios times their condition number, gated at 1e6); a differential oracle with no hand-written expected values; non-trivial = non-empty prefix".into();
-    res.bounds = format!("SMA, WMA, SD, MAD, MIN, MAX, FAST_STOCH, BB, CCI (suffix n) and ROC, ER, MFI (suffix n+1), periods 1..4; every prefix over {{1,4,7,1e6,7e6,-3e6,2e3}} up to depth {dp}; every suffix over {{1,2,4,7}} of length w..w+{extra}");
+    res.bounds = format!("SMA, WMA, SD, MAD, MIN, MAX, FAST_STOCH, BB, CCI (suffix n) and ROC, ER, MFI (suffix n+1), periods 1..4; every prefix over {{1,4,7,1e6,7e6,-3e6,2e3}} up to depth {dp}; every suffix over {{1,2,4,7}} of length w..w+{extra}; larger periods (up to 64/257): 3 suffix patterns of length w..w+2 after spike-laden prefixes of 7 lengths");
     res
 }
